@@ -54,7 +54,7 @@ def gen_obs(o):
         clist(o.get("gkeys", [])),
         clist(o.get("gens", []), lambda g: "(%d, %s)" % (g["h"], "None" if g["err"] else "(Some %s)" % clist(g["addrs"]))),
         clist(o.get("at", []), lambda a: "(%d,%d)" % tuple(a)),
-        clist(o.get("params", []), lambda p: "(%d, %s)" % (p["h"], "None" if p["err"] else "(Some (%d, %d, %d, %s))" % (
+        clist((o.get("params") or []), lambda p: "(%d, %s)" % (p["h"], "None" if p["err"] else "(Some (%d, %d, %d, %s))" % (
             p["pv"], p["pc"], p["cert"], clist(p["vals"], lambda v: "(%d,%d)" % tuple(v))))),
         cbool(o.get("vhash", True)))
 
@@ -75,10 +75,47 @@ def hist_term(c):
                                              cbool(c["initok"]), clist(c["obs"], obs))
 
 
+def bls_key_hex(v):
+    """the BLS key the harness registers for a validator (harness/internal/bftx blsKey)"""
+    return ("%02x" % (v["a"] & 0xff)) if not v.get("k") else "ee%02x" % (v["k"] & 0xff)
+
+
+def keys_oracle(c):
+    """GetBFTParameters must return, for every validator, the BLS key REQUESTED by the change that put those parameters in force
+    (the model has no keys; validatorsHash commits to them).  Returns a description of the first difference or None."""
+    eff = {c["gh"] + 1: c["init"]}
+    seen = set()
+    for b, o in zip(c["blocks"], c["obs"]):
+        if o["err"] != 0:
+            break
+        for k in o["pkeys"]:
+            if k not in seen and k not in eff and b["chg"] is not None and k == b["h"] + 1:
+                eff[k] = b["chg"]
+        seen.update(o["pkeys"])
+        for p in (o.get("params") or []):
+            if p["err"] or "keys" not in p:
+                continue
+            ks = [k for k in o["pkeys"] if k <= p["h"]]
+            if not ks or max(ks) not in eff:
+                continue
+            want = {v["a"]: bls_key_hex(v) for v in eff[max(ks)]["vals"]}
+            for (a, _w), key in zip(p["vals"], p["keys"]):
+                if a in want and want[a] != key:
+                    return ("after block %d GetBFTParameters(%d) returns BLS key %s for validator %d; the change in force "
+                            "(activated at height %d) requested %s" % (b["h"], p["h"], key, a, max(ks), want[a]))
+    return None
+
+
 def evaluate(ck, recs, tag="hist"):
     res = ck.coq_eval(IMPORTS, "hist_case_g", "check_hist_g", [hist_term_g(c) for c in recs], shard=40, tag=tag)
     if res is None:
         return
+    for c in recs:
+        if c.get("initok"):
+            bad = keys_oracle(c)
+            if bad:
+                ck.failures.append(dict(kind="history", key="c02:params:bls-keys", what=bad, case=c, spec_violated=True,
+                                        theorem_or_correspondence="GetBFTParameters vs the requested validator keys (validatorsHash commits to them)"))
     for c, code in zip(recs, res):
         ck.count()
         last = c["obs"][-1] if c["obs"] else None
@@ -116,6 +153,13 @@ def run(ck):
         return
     recs += r
     evaluate(ck, recs)
+    ck.obligations += 1
+    nchg = sum(1 for c in recs for b in c["blocks"] if b["chg"])
+    nprobe = sum(1 for c in recs for o in c["obs"] for p in (o.get("params") or []) if not p["err"])
+    if len(r) >= 100 and nchg >= 20 and nprobe >= 100:
+        ck.discharged += 1
+    else:
+        ck.fail_obligation("generator:histories", "%d random histories, %d parameter changes, %d parameter probes" % (len(r), nchg, nprobe))
     # chain switches: ONE node (one module instance, one database) applies common+A, reverts A, applies B; its view of
     # common+B must equal a fresh node's (the view is a function of the header chain alone, not of what was processed before)
     b1 = ck.go_build("c01")
